@@ -23,6 +23,9 @@ type dialFunc func(network, address string) (net.Conn, error)
 // between the client and server.
 func newWSHandler(host string, dial dialFunc, conn gkm.Gauge) http.Handler {
 	return http.HandlerFunc(func(w http.ResponseWriter, r *http.Request) {
+		wsSessions.add(1)
+		defer wsSessions.add(-1)
+
 		if conn != nil {
 			conn.Set(float64(atomic.AddInt64(&conns, 1)))
 			defer func() {
